@@ -473,9 +473,15 @@ let judge_cg (p : string array) (impl : string) : (string * string) option =
     let wr = raw_of_hex w in
     if any && ilen > 65535 then
       Some ("truncation", Printf.sprintf "%d instruction bytes do not fit instructionLength but the glyph was written" ilen)
-    else if String.length wr <> cg_size g then
-      Some ("instructions", Printf.sprintf "%d bytes written, %d expected: instructionLength and instructions are written iff some component carries WE_HAVE_INSTRUCTIONS (here: %b)"
-              (String.length wr) (cg_size g) any)
+    else if String.length wr <> cg_size g then begin
+      let base = cg_size g - (if any then 2 + ilen else 0) in
+      if String.length wr = base || String.length wr = base + 2 + ilen then
+        Some ("instructions", Printf.sprintf "%d bytes written, %d expected: instructionLength and instructions are written iff some component carries WE_HAVE_INSTRUCTIONS (here: %b)"
+                (String.length wr) (cg_size g) any)
+      else
+        Some ("truncation", Printf.sprintf "%d bytes written, the fields of the value take %d: an argument or a scale was not written in the width of its type"
+                (String.length wr) (cg_size g))
+    end
     else if not (cg_consistent g) then None
     else if wr <> ref_cg_encode g then Some ("roundtrip", "written bytes are not the encoding of the glyph: expected " ^ hex_of_raw (ref_cg_encode g))
     else if get "r" <> Some ("ok:" ^ rcg_show (cg_norm g)) then
@@ -1482,7 +1488,7 @@ let tag (input : string) (out : string) : string =
   let st_fmt s = match String.index_opt s ':' with Some i -> "-f" ^ String.sub s 0 i | None -> "" in
   let sub = match k with
     | "lay" | "rd" | "file" | "dict" | "dictw" -> "-" ^ List.nth p 1
-    | "filed" | "filec" -> "-" ^ Filename.basename (List.nth p 1)
+    | "filed" -> "-" ^ Filename.basename (List.nth p 1)
     | "cms" -> "-" ^ List.nth p 2 ^ st_fmt (List.nth p 3)
     | "cmsrd" -> "-" ^ List.nth p 2
     | "glyphrd" when String.length (List.nth p 2) >= 2 && (List.nth p 2).[0] >= '8' && List.nth p 2 <> "-" -> "-composite"
